@@ -1065,7 +1065,7 @@ int main(int argc, char **argv) {
   double case_mult_s = 0.45 * (mult_s + 0.5 * unk_s) + 0.55 * algo_s;
   double case_twin_s = 0.5 * (2 * mult_s + 0.6 * unk_s) + 0.5 * (aff_op + prj_op) * 400;
   double pred_s = (60 * aff_op * 6 + 3 * (mult_s + unk_s) + 1.0 * (mult_s + unk_s + 700 * aff_op)) / 20.0;
-  BIG_SUBSET = (unsigned)std::max(2.0, std::min(32.0, 8.0 * std::min(scale, 4.0) / load_s));
+  BIG_SUBSET = (unsigned)std::max(2.0, std::min(32.0, 8.0 * std::min(scale, 3.0) / load_s));
   for (int i = 0; i < (int)TBL.size(); i++) BIG_ORDER.push_back(i);
   {  // seeded permutation (same seed => same subset)
     uint64_t s = seed * 6364136223846793005ULL + 1442695040888963407ULL;
